@@ -75,7 +75,8 @@ def call_specs(draw, jsonclass):
     if draw(st.booleans()):
         params = draw(st.lists(st.one_of(values, st.sampled_from([None, 0, 0.0, -0.0, False, "", [], {}])), max_size=4))
     else:
-        keys = st.one_of(ident, st.sampled_from(["a", "b", "é", "k k", "0", ""]), st.text(gen.TEXT_ALPHABET, max_size=4))
+        keys = st.one_of(ident, st.sampled_from(["a", "b", "é", "k k", "0", ""]), st.text(gen.TEXT_ALPHABET, max_size=4),
+                         st.sampled_from(["func", "method", "params", "args", "kwargs", "config", "cls", "name", "request", "target", "result"]))
         keys = keys.filter(lambda k: k != "self" and (not jsonclass or k != "__jsonclass__"))
         params = draw(st.dictionaries(keys, values, max_size=4))
     result = draw(st.one_of(values, st.sampled_from([None, 0, 0.0, -0.0, False, "", [], {}, 2 ** 53, -(2 ** 53), 5e-324, 1e308])))
